@@ -218,6 +218,7 @@ type watchEnv struct {
 	commits func(ns, typ string) int // commits seen by the tap for a collection (0 without tap)
 	out     *Outcome
 	prop    string
+	keep    func(state.Event) // optional: the watcher keeps every received event object
 }
 
 func (s WatchSpec) ns() string {
@@ -304,6 +305,9 @@ func runWatcher(ctx context.Context, env *watchEnv, rec *WatchRec, extraKind []s
 		batch++
 		for _, e := range evs {
 			*env.ev++
+			if env.keep != nil && (e.Type == state.Created || e.Type == state.Updated || e.Type == state.Destroyed) {
+				env.keep(e)
+			}
 			r := recOf(e, batch)
 			r.AtEv = *env.ev
 			r.AtCommit = env.commits(spec.ns(), spec.Type)
